@@ -12,6 +12,7 @@ package main
 import (
 	"context"
 	"fmt"
+	"sort"
 	"strings"
 
 	"github.com/quic-go/quic-go"
@@ -34,14 +35,19 @@ type replayer struct {
 	cancel context.CancelFunc
 	p      [2]*rpeer
 	ctl    *gate.Controller
-	keyOf  [2]string              // cache key peer s uses for the other peer
-	conn   [nC][2]*quic.Conn      // real object of model connection c at peer s
-	sess   [nC][2]int64           // goroutine of half-session c@s
-	task   [2]int64               // goroutine of the dial task of s
-	res    [2]chan dialResult     //
-	parked map[string]*gate.Event // model step -> parked goroutine
-	pool   []*gate.Event          // arrived / done events not yet consumed
-	log    []string
+	keyOf  [2]string          // cache key peer s uses for the other peer
+	conn   [nC][2]*quic.Conn  // real object of model connection c at peer s
+	sess   [nC][2]int64       // goroutine of half-session c@s
+	task   [2]int64           // goroutine of the dial task of s
+	res    [2]chan dialResult //
+	got    [2]*dialResult     // dial results already consumed
+	// first step at which the real transports did not do what the model predicted (-1: none),
+	// and the (validated) model state before that step
+	devStep int
+	devPre  mstate
+	parked  map[string]*gate.Event // model step -> parked goroutine
+	pool    []*gate.Event          // arrived / done events not yet consumed
+	log     []string
 }
 
 func (r *replayer) peerOfOwner(o any) int {
@@ -120,7 +126,7 @@ func (r *replayer) known(goid int64) bool {
 }
 
 func newReplayer(cfg mconfig, tb *tablePair) (*replayer, error) {
-	r := &replayer{cfg: cfg, tb: tb, parked: map[string]*gate.Event{}}
+	r := &replayer{cfg: cfg, tb: tb, parked: map[string]*gate.Event{}, devStep: -1}
 	r.ctx, r.cancel = context.WithCancel(context.Background())
 	ea, eb, err := endpointPair(peerName[pA], peerName[pB], cfg.Order != "B<A")
 	if err != nil {
@@ -344,6 +350,7 @@ func (r *replayer) settle(pre, post *mstate, e mstep) error {
 			if err != nil {
 				return err
 			}
+			r.got[s] = &res
 			switch nd.Res {
 			case resNew, resHit, resReuse:
 				if res.err != nil {
@@ -459,40 +466,57 @@ func (r *replayer) run(trace []mstep) error {
 		return fmt.Errorf("initial state: %w", err)
 	}
 	for i, e := range trace {
-		ok := false
-		for _, en := range st.enabled() {
-			if en == e {
-				ok = true
-			}
-		}
-		if !ok {
-			return fmt.Errorf("step %d %s is not enabled in the model", i, e)
-		}
-		post, _, err := st.apply(e, r.tb, r.cfg.Order)
-		if err != nil {
+		if err := r.step(i, e, &st); err != nil {
+			r.devStep, r.devPre = i, st
 			return err
 		}
-		if e.Kind == "ext" {
-			r.conn[e.C][e.S].CloseWithError(quic.ApplicationErrorCode(causeCode[causeExt]), "environment")
-		} else {
-			ev, err := r.release(e)
-			if err != nil {
-				return fmt.Errorf("step %d: %w", i, err)
-			}
-			if e.Kind != "close406" {
-				if err := r.done(fmt.Sprintf("end of step %d %s", i, e), ev.Goid); err != nil {
-					return err
-				}
-			}
-		}
-		if err := r.settle(&st, &post, e); err != nil {
-			return fmt.Errorf("step %d %s: %w", i, e, err)
-		}
-		if err := r.compare(&post); err != nil {
-			return fmt.Errorf("after step %d %s: %w", i, e, err)
-		}
-		st = post
 	}
+	if err := r.atEnd(&st); err != nil {
+		r.devStep, r.devPre = len(trace), st
+		return err
+	}
+	return nil
+}
+
+// step executes model step e on the real transports and advances st when they agree.
+func (r *replayer) step(i int, e mstep, st *mstate) error {
+	ok := false
+	for _, en := range st.enabled() {
+		if en == e {
+			ok = true
+		}
+	}
+	if !ok {
+		return fmt.Errorf("step %d %s is not enabled in the model", i, e)
+	}
+	post, _, err := st.apply(e, r.tb, r.cfg.Order)
+	if err != nil {
+		return err
+	}
+	if e.Kind == "ext" {
+		r.conn[e.C][e.S].CloseWithError(quic.ApplicationErrorCode(causeCode[causeExt]), "environment")
+	} else {
+		ev, err := r.release(e)
+		if err != nil {
+			return fmt.Errorf("step %d: %w", i, err)
+		}
+		if e.Kind != "close406" {
+			if err := r.done(fmt.Sprintf("end of step %d %s", i, e), ev.Goid); err != nil {
+				return err
+			}
+		}
+	}
+	if err := r.settle(st, &post, e); err != nil {
+		return fmt.Errorf("step %d %s: %w", i, e, err)
+	}
+	if err := r.compare(&post); err != nil {
+		return fmt.Errorf("after step %d %s: %w", i, e, err)
+	}
+	*st = post
+	return nil
+}
+
+func (r *replayer) atEnd(st *mstate) error {
 	if !st.quiescent() {
 		return fmt.Errorf("trace does not end in a quiescent model state")
 	}
@@ -501,6 +525,7 @@ func (r *replayer) run(trace []mstep) error {
 		for k := range r.parked {
 			p = append(p, k)
 		}
+		sort.Strings(p)
 		return fmt.Errorf("quiescent in the model but real goroutines are still parked at %v, unconsumed events %s", p, r.poolString())
 	}
 	// nothing else may be on its way: every goroutine the model knows of has been accounted for
